@@ -79,6 +79,23 @@ MUTANTS = {
         ('session_decoded_without_replay_window', r'Some\(&client\.receive_key\),\s+Some\(&mut client\.replay_protection\),', 'Some(&client.receive_key), None,'),
         ('payload_counter_not_advanced', r'(Some\(\(client\.sequence, &client\.send_key\)\)\)\?;\s+)client\.sequence \+= 1;', r'\1'),
     ],
+    'U20': [
+        ('port_not_written', r'writer\.write_all\(&host\.port\(\)\.to_le_bytes_m\(\)\)\?;', ''),
+        ('count_off_by_one', r'count_some_unverified\(server_addresses\) as u32;', 'count_some_unverified(server_addresses) as u32 + 1;'),
+        ('v6_type_byte_wrong', r'writer\.write_all\(&NETCODE_ADDRESS_IPV6\.to_le_bytes_m\(\)\)\?;', 'writer.write_all(&NETCODE_ADDRESS_IPV4.to_le_bytes_m())?;'),
+        ('token_fields_swapped_on_write', r'writer\.write_all\(&self\.create_timestamp\.to_le_bytes_m\(\)\)\?;\s+writer\.write_all\(&self\.expire_timestamp\.to_le_bytes_m\(\)\)\?;', 'writer.write_all(&self.expire_timestamp.to_le_bytes_m())?; writer.write_all(&self.create_timestamp.to_le_bytes_m())?;'),
+        ('version_not_checked', r'if &version_info != NETCODE_VERSION_INFO \{', 'if false {'),
+        ('aad_protocol_id_dropped', r'buffer\[13\.\.21\]\.copy_from_slice\(&protocol_id\.to_le_bytes_m\(\)\);', 'buffer[13..21].copy_from_slice(&expire_timestamp.to_le_bytes_m());'),
+        ('decode_ignores_expiry_in_aad', r'(pub fn decode\([\s\S]*?)let aad = get_additional_data\(protocol_id, expire_timestamp\);', r'\1let aad = get_additional_data(protocol_id, 0);'),
+        ('encode_ignores_protocol_in_aad', r'(pub fn encode\([\s\S]*?)let aad = get_additional_data\(protocol_id, expire_timestamp\);', r'\1let aad = get_additional_data(0, expire_timestamp);'),
+        ('generate_fills_from_the_back', r'server_addresses_arr\[i\] = Some\(addr\);', 'server_addresses_arr[31 - i] = Some(addr);'),
+        ('private_keys_swapped_on_write', r'(writer\.write_all\(&self\.client_id\.to_le_bytes_m\(\)\)\?;\s+writer\.write_all\(&self\.timeout_seconds[\s\S]*?)writer\.write_all\(&self\.client_to_server_key\)\?;\s+writer\.write_all\(&self\.server_to_client_key\)\?;', r'\1writer.write_all(&self.server_to_client_key)?; writer.write_all(&self.client_to_server_key)?;'),
+        ('read_port_before_address', r'let mut ip = \[0u8; 4\];\s+src\.read_exact\(&mut ip\)\?;\s+let port = read_u16\(src\)\?;', 'let port = read_u16(src)?; let mut ip = [0u8; 4]; src.read_exact(&mut ip)?;'),
+        ('read_unknown_type_skipped', r'_ => return Err\(io_error_unverified\(\)\),', '_ => {}'),
+        ('generate_expiry_is_creation_time', r'let expire_timestamp = current_time\.as_secs\(\) \+ expire_seconds;', 'let expire_timestamp = current_time.as_secs();'),
+        ('generate_seals_with_other_expiry', r'private_connect_token\.encode\(&mut private_data, protocol_id, expire_timestamp, &xnonce, private_key\)\?;', 'private_connect_token.encode(&mut private_data, protocol_id, 0, &xnonce, private_key)?;'),
+        ('read_u32_reads_two_bytes', r'(pub fn read_u32[\s\S]*?)let mut buffer = \[0u8; 4\];\s+src\.read_exact\(&mut buffer\)\?;', r'\1let mut buffer = [0u8; 4]; src.read_exact(&mut buffer[..2])?;'),
+    ],
     'U18': [
         ('horizon_shortened', r'let DISCARD_AFTER: Duration = Duration::from_secs\(3\);', 'let DISCARD_AFTER: Duration = Duration::from_secs(2);'),
         ('comparison_flipped', r'if self\.current_time - sent_packet\.sent_at >= DISCARD_AFTER \{', 'if self.current_time - sent_packet.sent_at < DISCARD_AFTER {'),
@@ -137,6 +154,11 @@ MUTANTS = {
 
 def run_for_unit(u, workdir):
     res = []
+    if not MUTANTS.get(u['name']):
+        return res
+    # obligations that already fail on the unmutated tree (known findings): a mutant counts as killed only by a NEW failure
+    base = VR.run_unit(u['path'], os.path.join(workdir, 'mutant_base'))
+    baseline = set(f['obligation'] for f in base.get('failures', []))
     for (name, rx, repl) in MUTANTS.get(u['name'], []):
         pat = re.compile(rx)
 
@@ -153,13 +175,13 @@ def run_for_unit(u, workdir):
             pass
         if not applied:
             out = 'not_applied'
-        elif r['status'] == 'failed':
+        elif r['status'] == 'failed' and set(f['obligation'] for f in r.get('failures', [])) - baseline:
             out = 'killed'
-        elif r['status'] == 'verified':
+        elif r['status'] in ('verified', 'failed'):
             out = 'survived'
         else:
             out = 'undecided'
-        res.append(dict(name=name, result=out, failed_obligations=[f['obligation'] for f in r.get('failures', [])][:4],
+        res.append(dict(name=name, result=out, failed_obligations=[f['obligation'] for f in r.get('failures', []) if f['obligation'] not in baseline][:4],
                         notes=(r.get('hard_errors') or [])[:1]))
     return res
 
